@@ -28,10 +28,10 @@ REGISTRY = {
     "C14": ("model_checking", ["bloomfam", "countmin", "qf", "cuckoo", "expanding", "scale"]),
     "C16": ("model_checking", ["bloomfam", "countmin", "saturation"]),
     "C15": ("model_checking", ["cuckoo", "scale"]),
-    "C17": ("model_checking", ["countmin"]),
+    "C17": ("model_checking", ["countmin", "scale"]),
     "C18": ("model_checking", ["hashes"]),
-    "C19": ("model_checking", ["bloomfam", "countmin", "qf", "cuckoo", "expanding"]),
-    "C20": ("model_checking", ["bitarray"]),
+    "C19": ("model_checking", ["bloomfam", "countmin", "qf", "cuckoo", "expanding", "scale"]),
+    "C20": ("model_checking", ["bitarray", "scale"]),
 }
 
 
